@@ -90,7 +90,7 @@ class PluginGen(object):
             self.store[key] = cmds
         else:
             table = {}
-            for code in ["G4", "M204", "M205", "M73", "M900"]:
+            for code in ["G4", "M204", "M205", "M73", "M900", "M0"]:
                 if rng.random() < 0.6:
                     table[code] = rng.choice(["exclude", "first", "last", "merge"])
             value = [{"gcode": c, "mode": m, "description": ""} for c, m in table.items()]
@@ -110,6 +110,11 @@ class PluginGen(object):
                 payload = dict(self.lastFile)
             self.lastFile = payload
             self.steps.append(("pev", name, payload))
+        elif name == "PrintFailed":
+            # OctoPrint also sends PrintFailed (reason "cancelled") after a cancellation, and on
+            # its own when the job dies of an error
+            self.steps.append(("pev", name, self.rng.choice([
+                {"reason": "cancelled"}, {"reason": "error"}, {}])))
         else:
             self.steps.append(("pev", name))
         if name == "SettingsUpdated":
@@ -372,6 +377,17 @@ class PluginGen(object):
                                [list(t) for t in table]))
             self.store["at"] = table
             self.event("SettingsUpdated")
+        if self.focus == "deferred" and rng.random() < 0.6:
+            # start from a configured table of extended codes (incl. a code numbered zero)
+            table = {"M0": rng.choice(["first", "last", "merge", "exclude"])}
+            for code in ["G4", "M204", "M205", "M73", "M900"]:
+                if rng.random() < 0.5:
+                    table[code] = rng.choice(["exclude", "first", "last", "merge"])
+            self.steps.append(("set", "extendedExcludeGcodes",
+                               [{"gcode": c, "mode": m, "description": ""}
+                                for c, m in table.items()], table))
+            self.store["xg"] = table
+            self.event("SettingsUpdated")
         if self.focus in ("hook", "mixed") and rng.random() < 0.4:
             self.steps.append(("set", "mayShrinkRegionsWhilePrinting", True, None))
             self.store["mayShrink"] = True
@@ -422,6 +438,15 @@ def generate(seed, focus=None, exact_only=True, g90e=None):
 # ---------------------------------------------------------------------- sub-grid API histories
 def _spec(reg, rid):
     """API payload of a region given in native units (1e-4 mm)."""
+    if reg.get("jit"):
+        # a coordinate with more decimals than any fixed-point rendering keeps (e.g. the result
+        # of a unit conversion in the client)
+        if reg["t"] == "rect":
+            return {"type": "RectangularRegion", "id": rid, "x1": (reg["x1"] + 0.0123) / 10000.0,
+                    "y1": reg["y1"] / 10000.0, "x2": reg["x2"] / 10000.0,
+                    "y2": (reg["y2"] + 0.0456) / 10000.0}
+        return {"type": "CircularRegion", "id": rid, "cx": (reg["cx"] + 0.0123) / 10000.0,
+                "cy": reg["cy"] / 10000.0, "r": (reg["r"] + 0.0789) / 10000.0}
     if reg["t"] == "rect":
         return {"type": "RectangularRegion", "id": rid, "x1": reg["x1"] / 10000.0,
                 "y1": reg["y1"] / 10000.0, "x2": reg["x2"] / 10000.0, "y2": reg["y2"] / 10000.0}
@@ -477,6 +502,8 @@ def fine_history(seed):
             reg = {"t": "rect", "x1": cx, "y1": cy, "x2": cx + rng.choice([10000, 23456, 300000]),
                    "y2": cy + rng.choice([10000, 34567, 200000])}
         reg["id"] = "f%d" % (index + 1)
+        if rng.random() < 0.3:
+            reg["jit"] = True
         steps.append(("api", "addExcludeRegion", _spec(reg, reg["id"]), False))
         view.append(reg)
     if rng.random() < 0.15:
